@@ -200,12 +200,18 @@ class C03(Check):
             ref = type(ref)(**{k: type(v)(type(v.counts)(cf.binning, v.counts.counts, auto=True),
                                           type(v.sum_weights)(cf.binning, v.sum_weights.sum_weights1, v.sum_weights.sum_weights2, auto=True))
                                for k, v in ref.to_dict().items()})
-            use_ref = ref if rng.random() < 0.8 else None
-            nz = RedshiftData.from_corrfuncs(cf, use_ref)
+            use_ref = ref if rng.random() < 0.7 else None
+            unk = gen.gen_corrfunc(rng, nb, npatch, True, members=["dr"], sparsity=0.0)
+            unk = type(unk)(**{k: type(v)(type(v.counts)(cf.binning, v.counts.counts, auto=True),
+                                          type(v.sum_weights)(cf.binning, v.sum_weights.sum_weights1, v.sum_weights.sum_weights2, auto=True))
+                               for k, v in unk.to_dict().items()})
+            use_unk = unk if rng.random() < 0.5 else None
+            nz = RedshiftData.from_corrfuncs(cf, use_ref, use_unk)
             ws = s.samples
             wss = use_ref.sample().samples if use_ref is not None else 1.0
+            wpp = use_unk.sample().samples if use_unk is not None else 1.0
             dz = cf.binning.dz
-            want = ws / np.sqrt(dz[None, :] ** 2 * wss)
+            want = ws / np.sqrt(dz[None, :] ** 2 * wss * wpp)
             ok = np.isfinite(want) & np.isfinite(nz.samples)
             if not close_abs(nz.samples[ok], want[ok], np.abs(want[ok]) + 1e-300, rel=1e-9) or not np.array_equal(np.isnan(want), np.isnan(nz.samples)):
                 bad("redshiftdata:samples-not-from-ingredient-samples", {})
